@@ -146,6 +146,10 @@ class Gen:
                         # the same element counted from the end: t[-1] is a constant index too
                         self.feat.add("negative-constant-index")
                         walk(sub(e, ast.UnaryOp(op=ast.USub(), operand=C(len(sh[1]) - i))), s, depth + 1)
+                    elif i > 0 and r.random() < 0.06:
+                        # ... or as the negation of a negative constant (what a captured `k = -1` in `t[-k]` becomes): +i
+                        self.feat.add("selector:minus-of-negative-constant")
+                        walk(sub(e, ast.UnaryOp(op=ast.USub(), operand=C(-i))), s, depth + 1)
                     else:
                         walk(sub(e, C(i)), s, depth + 1)
             elif sh[0] == "dic":
@@ -223,6 +227,24 @@ class Gen:
             if form == "kwonly":
                 made.args.kwonlyargs, made.args.kw_defaults, made.args.args = made.args.args, [None], []
             maker = ast.Call(func=lam([m], made), args=[self.expr(env, s1, d - 2)], keywords=[])
+            if r.random() < 0.5:
+                # ... the maker takes a second parameter and its arguments come by keyword in another order than declared, or the
+                # first is left to its default: python binds by name
+                m2 = m + "_2"
+                while m2 in inner or m2 == p:
+                    m2 += "_"
+                inner2 = dict(inner)
+                inner2[m2] = NUM
+                made.body = ast.BinOp(left=made.body, op=ast.Add(), right=N(m2)) if want == NUM else made.body
+                a1, a2 = maker.args[0], self.expr(env, NUM, d - 2)
+                mk = lam([m, m2], made)
+                if s1 == NUM and r.random() < 0.5:
+                    mk.args.defaults = [C(11), C(13)]
+                    maker = ast.Call(func=mk, args=[], keywords=[ast.keyword(arg=m2, value=a2)])
+                    self.feat.add("maker-default-before-keyword")
+                else:
+                    maker = ast.Call(func=mk, args=[], keywords=[ast.keyword(arg=m2, value=a2), ast.keyword(arg=m, value=a1)])
+                    self.feat.add("maker-keywords-out-of-order")
             val = self.expr(env, NUM, d - 2)
             self.feat.add("made-lambda-called-by-" + form)
             if form == "positional":
@@ -375,13 +397,22 @@ class Gen:
         if kind == "neg-unary":
             return ast.UnaryOp(op=ast.USub(), operand=C(r.randint(1, n)))
         if kind == "neg-const":
+            if r.random() < 0.3 and n > 1:
+                self.feat.add("selector:minus-of-negative-constant")
+                return ast.UnaryOp(op=ast.USub(), operand=C(-r.randint(1, n - 1)))
             return C(-r.randint(1, n))
         if kind == "variable":
             return ast.IfExp(test=self.boolean(env, d - 1), body=C(r.randint(0, n - 1)), orelse=C(r.randint(0, n - 1)))
         if kind == "slice":
-            lo = r.choice([None, 0, 1])
-            hi = r.choice([None, 1, n])
-            return ast.Slice(lower=None if lo is None else C(lo), upper=None if hi is None else C(hi), step=None)
+            def bound(v):
+                if v is None:
+                    return None
+                return ast.UnaryOp(op=ast.USub(), operand=C(-v)) if v < 0 else C(v)
+
+            # (python clamps a slice bound that lies beyond either end: nothing is out of range for a slice)
+            lo = r.choice([None, 0, 1, -1, -n, -(n + 2), n + 3])
+            hi = r.choice([None, 1, n, -1, -(n + 1), -(n + 4), n + 5])
+            return ast.Slice(lower=bound(lo), upper=bound(hi), step=None)
         # an index that becomes constant only after beta reduction
         return ast.Call(func=lam(["i_"], N("i_")), args=[C(r.randint(0, n - 1))], keywords=[])
 
@@ -539,6 +570,16 @@ class Gen:
                         tgt = self.r.choice(seqs)[1]
                         cur = self.op("SelectMany", cur, self.stage_function(lam([v], self.seq(env, tgt, d))))
                         shape = tgt[1]
+                if kind == "Select" and self.odd_stage_functions and self.r.random() < 0.06:
+                    # a stage function that LOOKS like the identity - its body is a bare parameter - but returns a defaulted
+                    # second parameter, the item goes to the positional-only first one
+                    self.feat.add("stage-function-returning-its-default")
+                    fn = lam(["d_"], N("d_"))
+                    fn.args.posonlyargs, fn.args.defaults = [ast.arg(arg=v)], [C(self.r.randint(2, 9))]
+                    cur = self.op("Select", cur, fn)
+                    shape = NUM
+                    stages.append(kind)
+                    continue
                 if kind == "Select":
                     tgt = NUM if (last and final_scalar) else self.rand_shape(env, 2)
                     cur = self.op("Select", cur, self.stage_function(lam([v], self.expr(env, tgt, d))))
